@@ -14,7 +14,7 @@ Specification: spec/SourceLine.tla
     empty parameter) with <= 2 parameters (up to 5 fields), and the rendering choices: quick = groups of dimensions
     varied around the canonical spelling; thorough = rich alphabet/blank patterns + the full product of all
     dimensions.  Invariants: Immaterial, CanonSplitsExactly, CommentCut.
-(G) SourceLine_Gen: TLC enumerates the rewrite vectors (4536 line vectors = the product of the model's rendering
+(G) SourceLine_Gen: TLC enumerates the rewrite vectors (22680 line vectors = the product of the model's rendering
     dimensions, 18 file vectors: wrap none/INCLUDE/parameterless macro x blank lines x LF/CR-LF/mixed).  Every golden
     source is rewritten (each physical line with a seed-chosen vector, each file with a file vector) and assembled
     like the test driver does; the p2bin image must equal the recorded tests/<t>/<t>.ori.   quick: 2 rewritten
@@ -332,7 +332,7 @@ def main(tier):
                                            "rewritten": srcline.text(pair_ev[0][0]["raw"])}})
     return rep.finish(
         rule="programs = every golden source x N rewritten variants (N=2 quick, 10 thorough); per physical line a "
-             "seed-chosen vector from the 4536 rendering choices TLC enumerates for SourceLine.tla's Render, per file "
+             "seed-chosen vector from the 22680 rendering choices TLC enumerates for SourceLine.tla's Render, per file "
              "one of the 18 file vectors (wrap none/include/macro x blank lines x LF/CRLF/mixed); distinct = "
              "(test, file vector, number of rewritten lines); non-trivial = at least one line or the file was changed",
         exhaustive=False)
